@@ -435,8 +435,29 @@ func TestC15_Histories(t *testing.T) {
 				}
 				var cl string
 				st.Input, cl = genReuseInput(t)
-				if st.Kind == "parseND" && rapid.Bool().Draw(t, "multiline") {
+				// line structure: the newline handling of ParseND must not survive into a later Parse on the same
+				// object (and the other way round). The oracle is the same call on a fresh object, so any layout is fair.
+				switch lay := rapid.IntRange(0, 5).Draw(t, "layout"); {
+				case lay == 0 && len(st.Input) < 40000: // a line break after every comma outside strings
+					var nb []byte
+					inStr := false
+					for j, ch := range st.Input {
+						nb = append(nb, ch)
+						if ch == '"' && (j == 0 || st.Input[j-1] != '\\') {
+							inStr = !inStr
+						}
+						if ch == ',' && !inStr {
+							nb = append(nb, '\n')
+						}
+					}
+					st.Input = nb
+					cl += "/pretty"
+				case lay == 1 || (lay <= 3 && st.Kind == "parseND"): // two documents on two lines
 					st.Input = append(append(append([]byte(nil), st.Input...), '\n'), st.Input...)
+					if st.Kind == "parse" && !strings.Contains(cl, "invalid") {
+						cl = "two-documents-invalid/" + cl[strings.IndexByte(cl, '/')+1:]
+					}
+					cl += "/two-lines"
 				}
 				st.Copy = rapid.Bool().Draw(t, "copy")
 				st.NoOpt = rapid.IntRange(0, 2).Draw(t, "noopt") == 0
